@@ -15,7 +15,7 @@ ID = "C14"
 LEVEL = "exploration"
 TIERS = {
   "quick": {"runs": 96, "chunk": 6, "budget_s": 420, "timeout_s": 300},
-  "thorough": {"runs": 1600, "chunk": 10, "budget_s": 3000, "timeout_s": 300},
+  "thorough": {"runs": 384, "chunk": 8, "budget_s": 1500, "timeout_s": 300},
 }
 RULE = ("one evaluation = one (world, clause) comparison after a reset_data_keyframe call at a seeded point of a seeded multi-world history, "
         "or one rejection probe (invalid scalar key, malformed key array); keys are scalars (valid, -1, nkey, huge) and per-world arrays mixing "
